@@ -23,7 +23,7 @@ from ..gutil import maxabs
 
 LEVEL = "exploration"
 RULE = ("attitudes: 4 axes x {0,0.1,1,pi/2,2.5} both signs; v_b, w in {0,(1,-2,3),generic}; rotor speeds {0, hover, (600,700,800,900)}; commands {speed-100, speed, speed+100, differential (+100,-100,+50,-20)}; "
-        "z in {2, 0.01}; parameter sets: default, asymmetric geometry, 16 spin patterns, scaled mass/inertia, aero on. non-trivial = non-zero rotor speed or rate; distinct by raw bytes")
+        "attitudes inside the gimbal band with roll; quaternions scaled by 1+-1e-3, 1+1e-7, 1-1e-5, 1.02 (norm clause); commands within parts per million of the speeds; z in {2, 0.01}; parameter sets: default, asymmetric geometry, 16 spin patterns, scaled mass/inertia, aero on. non-trivial = non-zero rotor speed or rate; distinct by raw bytes")
 ASSUMPTIONS = ["reference rigid-body equations in numpy double", "states on or below the ground plane (z <= 0) are outside the quantifier"]
 
 _M = {}
